@@ -37,9 +37,10 @@ type c16Script struct {
 }
 
 type c16Flight struct {
-	Name    string      `json:"name"`
-	Callers []c16Caller `json:"callers"`
-	Scripts []c16Script `json:"scripts"`
+	Name      string      `json:"name"`
+	Callers   []c16Caller `json:"callers"`
+	Scripts   []c16Script `json:"scripts"`
+	CacheFail int         `json:"cache_fail,omitempty"` // the first k cache writes whose document contains Name are refused
 }
 
 type c16Input struct {
@@ -49,6 +50,7 @@ type c16Input struct {
 	Name    string      `json:"name,omitempty"`
 	EP2     int         `json:"ep2,omitempty"`    // late: entry point of the caller that overtakes (0 = nobody)
 	Change  bool        `json:"change,omitempty"` // late: the service activates a new version before the held caller is released
+	CFail   bool        `json:"cfail,omitempty"`  // policy: the cache refuses every write made after construction
 	Flights []c16Flight `json:"flights,omitempty"`
 }
 
@@ -167,6 +169,7 @@ type c16Svc struct {
 	pollver map[string]uint32 // the version the client said it holds, per name, at the last poll
 	nget    int
 	logging bool
+	probe   bool // after the scenario: every Get is counted and answered "not found" at once
 }
 
 func (s *c16Svc) ms() int64 { return time.Since(s.t0).Milliseconds() }
@@ -178,7 +181,7 @@ func (s *c16Svc) Get(ctx context.Context, name string) (*api.SecretValue, error)
 		s.mu.Unlock()
 		return &api.SecretValue{Value: c16Value(name, sv.tok), Version: api.SecretVersion(sv.ver)}, nil
 	}
-	if !s.logging {
+	if !s.logging || s.probe {
 		n := s.nget
 		s.mu.Unlock()
 		if n > 50 {
@@ -255,25 +258,138 @@ func c16NewSvc() *c16Svc {
 		log: map[string][]string{}, conc: map[string]int{}, maxc: map[string]int{}, polled: map[string]bool{}}
 }
 
+// ---- a cache whose Write fails when told to (the cache is outside the program: its answers are inputs)
+
+var c16ErrCache = errors.New("scripted cache write failure")
+
+type c16Write struct {
+	toks  map[string]int  // name -> value token carried by the offered document
+	ok    bool            // the cache's answer
+	after map[string]bool // names in the cache's contents right after the call
+}
+
+type c16Cache struct {
+	mu      sync.Mutex
+	data    []byte
+	failAll bool
+	failFor map[string]int // name -> how many more writes whose document contains it are refused
+	writes  []c16Write
+}
+
+func c16DocToks(b []byte) map[string]int {
+	var doc map[string]*struct {
+		Secret *struct {
+			Value   []byte
+			Version uint32
+		} `json:"secret"`
+	}
+	out := map[string]int{}
+	if len(b) == 0 || json.Unmarshal(b, &doc) != nil {
+		return out
+	}
+	for n, e := range doc {
+		if e != nil && e.Secret != nil {
+			out[n] = c16Tok(e.Secret.Value)
+		} else {
+			out[n] = 999997
+		}
+	}
+	return out
+}
+
+func (c *c16Cache) Write(b []byte) error {
+	c.mu.Lock()
+	defer c.mu.Unlock()
+	w := c16Write{toks: c16DocToks(b), ok: !c.failAll, after: map[string]bool{}}
+	for n := range w.toks {
+		if c.failFor[n] > 0 {
+			c.failFor[n]--
+			w.ok = false
+		}
+	}
+	if w.ok {
+		c.data = append([]byte(nil), b...)
+	}
+	for n := range c16DocToks(c.data) {
+		w.after[n] = true
+	}
+	c.writes = append(c.writes, w)
+	if !w.ok {
+		return c16ErrCache
+	}
+	return nil
+}
+
+func (c *c16Cache) Read() ([]byte, error) {
+	c.mu.Lock()
+	defer c.mu.Unlock()
+	return c.data, nil
+}
+
+func (c *c16Cache) has(name string) bool {
+	c.mu.Lock()
+	defer c.mu.Unlock()
+	_, ok := c16DocToks(c.data)[name]
+	return ok
+}
+
+// the first write whose document contains name: happened, accepted, token offered, in the cache right after
+func (c *c16Cache) firstWith(name string) (seen, ok bool, tok int, cached bool) {
+	c.mu.Lock()
+	defer c.mu.Unlock()
+	for _, w := range c.writes {
+		if t, in := w.toks[name]; in {
+			return true, w.ok, t, w.after[name]
+		}
+	}
+	return false, true, 0, false
+}
+
 const c16Decl = "[([x61], 1, 100)]"
 
 // ---- policy cases
 
 func c16Policy(t *testing.T, in c16Input) Record {
 	cls, nreq, tok := -1, 0, 0
+	aSecret, aCached, aPolled, nreq2 := false, false, false, 0
 	svcHas := "None"
 	bubble(t, func(t *testing.T) {
 		svc := c16NewSvc()
 		svc.static["x"] = c16SV{ver: 7, tok: 5}
 		ctx, cancel := context.WithCancel(context.Background())
 		defer cancel()
+		cache := &c16Cache{failFor: map[string]int{}}
 		st, err := setec.NewStore(ctx, setec.StoreConfig{Client: svc, Secrets: []string{"a"}, AllowLookup: in.Allow,
-			PollInterval: -1, Logf: func(string, ...any) {}})
+			PollInterval: -1, Cache: cache, Logf: func(string, ...any) {}})
 		if err != nil {
 			cls = 9
 			return
 		}
 		defer st.Close()
+		cache.mu.Lock()
+		cache.failAll = in.CFail
+		cache.mu.Unlock()
+		defer func() {
+			// afterwards: Secret(name), one more LookupSecret, the next Refresh, the cache's contents
+			func() {
+				defer func() { recover() }()
+				aSecret = st.Secret(in.Name) != nil
+			}()
+			aCached = cache.has(in.Name)
+			svc.mu.Lock()
+			b2 := svc.nget
+			svc.mu.Unlock()
+			func() {
+				defer func() { recover() }()
+				c2, cf := context.WithTimeout(ctx, time.Second)
+				defer cf()
+				st.LookupSecret(c2, in.Name)
+			}()
+			svc.mu.Lock()
+			nreq2 = svc.nget - b2
+			svc.mu.Unlock()
+			// the probing lookup may itself have installed the name: the poll set is read off before it
+		}()
 		svc.mu.Lock()
 		before := svc.nget
 		svc.mu.Unlock()
@@ -299,15 +415,29 @@ func c16Policy(t *testing.T, in c16Input) Record {
 		if cls == 0 && nreq > 0 {
 			cls = 4
 		}
+		st.Refresh(ctx)
+		svc.mu.Lock()
+		aPolled = svc.polled[in.Name]
+		svc.mu.Unlock()
 	})
 	if in.Name == "x" {
 		svcHas = "(Some (7, 5))"
 	}
-	rec := Record{Kind: "policy", Input: in, Obs: map[string]any{"class": cls, "requests": nreq, "token": tok},
-		Key: fmt.Sprintf("policy:%v:%d:%s", in.Allow, in.EP, in.Name), Nontrivial: in.Name != "a",
-		Tags: []string{fmt.Sprintf("policy-allow=%v", in.Allow)},
-		Coq: fmt.Sprintf("CPolicy %s %s %d %s %s %d %d %d", coqBool(in.Allow), c16Decl, in.EP, coqBytes([]byte(in.Name)), svcHas, cls, nreq, tok)}
+	tags := []string{fmt.Sprintf("policy-allow=%v", in.Allow)}
+	if in.CFail {
+		tags = append(tags, "policy-cache-refuses")
+	}
+	rec := Record{Kind: "policy", Input: in, Obs: map[string]any{"class": cls, "requests": nreq, "token": tok,
+		"secret_after": aSecret, "requests_of_second_lookup": nreq2, "polled_after": aPolled, "cached_after": aCached},
+		Key: fmt.Sprintf("policy:%v:%d:%s:%v", in.Allow, in.EP, in.Name, in.CFail), Nontrivial: in.Name != "a",
+		Tags: tags,
+		Coq: c16RenderPolicy(in, svcHas, cls, nreq, tok, aSecret, nreq2, aPolled, aCached)}
 	return rec
+}
+
+func c16RenderPolicy(in c16Input, svcHas string, cls, nreq, tok int, aSecret bool, nreq2 int, aPolled, aCached bool) string {
+	return fmt.Sprintf("CPolicy %s %s %d %s %s %d %d %d %s %s %d %s %s", coqBool(in.Allow), c16Decl, in.EP, coqBytes([]byte(in.Name)), svcHas,
+		cls, nreq, tok, coqBool(in.CFail), coqBool(aSecret), nreq2, coqBool(aPolled), coqBool(aCached))
 }
 
 // ---- an overtaken flight (F8): the caller is held between its unknown-name check and the flight by a
@@ -424,6 +554,13 @@ type c16FlightObs struct {
 	Secret  bool     `json:"secret_after"`
 	Polled  bool     `json:"polled_after"`
 	Cached  bool     `json:"cached_after"`
+	Solo    bool     `json:"only_name_in_store"`
+	// the first cache write whose document contains the name (the lookup's own flush)
+	FlSeen   bool `json:"flush_seen"`
+	FlOK     bool `json:"flush_accepted"`
+	FlTok    int  `json:"flush_token"`
+	FlCached bool `json:"cached_right_after_flush"`
+	AfterReq bool `json:"next_lookup_sends_request"`
 }
 
 func c16RunFlights(t *testing.T, in c16Input) []c16FlightObs {
@@ -436,7 +573,10 @@ func c16RunFlights(t *testing.T, in c16Input) []c16FlightObs {
 		}
 		ctx, cancel := context.WithCancel(context.Background())
 		defer cancel()
-		cache := setec.NewMemCache("")
+		cache := &c16Cache{failFor: map[string]int{}}
+		for _, f := range in.Flights {
+			cache.failFor[f.Name] = f.CacheFail
+		}
 		st, err := setec.NewStore(ctx, setec.StoreConfig{Client: svc, Secrets: []string{"a"}, AllowLookup: true,
 			PollInterval: -1, Cache: cache, Logf: func(string, ...any) {}})
 		if err != nil {
@@ -507,12 +647,29 @@ func c16RunFlights(t *testing.T, in c16Input) []c16FlightObs {
 				defer func() { recover() }()
 				obs[fi].Secret = st.Secret(f.Name) != nil
 			}()
-			var doc map[string]json.RawMessage
-			if json.Unmarshal([]byte(cache.String()), &doc) == nil {
-				_, obs[fi].Cached = doc[f.Name]
-			}
+			obs[fi].Cached = cache.has(f.Name)
+			obs[fi].Solo = len(in.Flights) == 1
+			obs[fi].FlSeen, obs[fi].FlOK, obs[fi].FlTok, obs[fi].FlCached = cache.firstWith(f.Name)
 		}
 		st.Refresh(ctx)
+		// one more LookupSecret per name: does it send a request?  (answered "not found" at once)
+		svc.mu.Lock()
+		svc.probe = true
+		svc.mu.Unlock()
+		for fi, f := range in.Flights {
+			svc.mu.Lock()
+			b0 := svc.nget
+			svc.mu.Unlock()
+			func() {
+				defer func() { recover() }()
+				c2, cf := context.WithTimeout(ctx, time.Second)
+				defer cf()
+				st.LookupSecret(c2, f.Name)
+			}()
+			svc.mu.Lock()
+			obs[fi].AfterReq = svc.nget > b0
+			svc.mu.Unlock()
+		}
 		svc.mu.Lock()
 		for fi, f := range in.Flights {
 			obs[fi].Polled = svc.polled[f.Name]
@@ -576,7 +733,8 @@ func c16RenderFlight(f c16Flight, o c16FlightObs) (string, int) {
 		sc[i] = "(" + sc[i] + ")"
 	}
 	return fmt.Sprintf("CFlight %s %s %s %s %s %s %s %d %s %s %s", c16Decl, coqBytes([]byte(f.Name)), coqList(cs), coqList(sc),
-		coqList(wins), coqList(res), coqList(lg), o.MaxConc, coqBool(o.Secret), coqBool(o.Polled), coqBool(o.Cached)), retries
+		coqList(wins), coqList(res), coqList(lg), o.MaxConc, coqBool(o.Secret), coqBool(o.Polled), coqBool(o.Cached)) +
+		fmt.Sprintf(" %s %s %s %d %s %s", coqBool(o.Solo), coqBool(o.FlSeen), coqBool(o.FlOK), o.FlTok, coqBool(o.FlCached), coqBool(o.AfterReq)), retries
 }
 
 // the service's versions: the model's SAns carries the version the service will assign; the
@@ -608,9 +766,18 @@ func c16Flights(t *testing.T, in c16Input) []Record {
 		if len(obs[fi].Log) > 2 {
 			tags = append(tags, "several-requests")
 		}
+		if obs[fi].FlSeen && !obs[fi].FlOK {
+			tags = append(tags, "cache-refused-the-lookups-flush")
+		}
+		if obs[fi].FlSeen && obs[fi].FlOK {
+			tags = append(tags, "lookup-flush-landed")
+		}
 		one := c16Input{Kind: "flight", Flights: in.Flights}
 		rec := Record{Kind: "flight", Input: one, Obs: obs[fi], Key: coq, Nontrivial: len(f.Callers) >= 2 && len(classes) >= 2,
 			Tags: tags, Coq: coq}
+		if obs[fi].FlSeen && !obs[fi].FlOK {
+			rec.Nontrivial = true
+		}
 		for _, r := range obs[fi].Results {
 			if r.Class >= 7 {
 				rec.Direct = &DirectVerdict{OK: false, What: fmt.Sprintf("caller of %q got result class %s", f.Name, names[r.Class])}
@@ -727,13 +894,18 @@ func runC16(o Opts) {
 		for _, in := range readCorpus[c16Input](o.Corpus) {
 			runOne(in, true)
 		}
-		var selfSrc []Record
+		var selfSrc, cacheSelf []Record
 		for _, allow := range []bool{false, true} {
 			for ep := 0; ep < 4; ep++ {
 				for _, name := range []string{"a", "x", "nowhere"} {
 					recs := runOne(c16Input{Kind: "policy", Allow: allow, EP: ep, Name: name}, false)
 					if !allow && name == "x" && ep == 1 {
 						selfSrc = append(selfSrc, recs[0])
+					}
+					// the same call with a cache that refuses every write
+					recs = runOne(c16Input{Kind: "policy", Allow: allow, EP: ep, Name: name, CFail: true}, false)
+					if allow && name == "x" && ep == 1 {
+						cacheSelf = append(cacheSelf, recs[0])
 					}
 				}
 			}
@@ -764,10 +936,82 @@ func runC16(o Opts) {
 			if r.IntN(4) == 0 {
 				in.Flights = append(in.Flights, c16GenFlight(r, "y"))
 			}
+			// a second stream decides where the cache refuses writes (the scenarios stay what they were)
+			r3 := NewRand(o.Seed, uint64(2600+k))
+			for fi := range in.Flights {
+				switch x := r3.IntN(10); {
+				case x < 3:
+					in.Flights[fi].CacheFail = 1
+				case x < 4:
+					in.Flights[fi].CacheFail = 2
+				}
+			}
 			recs := runOne(in, false)
 			if len(selfSrc) < 8 && k%11 == 5 {
 				selfSrc = append(selfSrc, recs[0])
 			}
+		}
+		// the service answers the first request while the cache refuses the lookup's flush (or not)
+		nc := 80
+		if o.Tier == "thorough" {
+			nc = 1500
+		}
+		if o.N > 0 {
+			nc = o.N / 4
+		}
+		for k := 0; k < nc; k++ {
+			r := NewRand(o.Seed, uint64(3600+k))
+			in := c16Input{Kind: "flight"}
+			in.Flights = append(in.Flights, c16GenFlight(r, "x"))
+			if r.IntN(3) == 0 {
+				in.Flights = append(in.Flights, c16GenFlight(r, "y"))
+			}
+			for fi := range in.Flights {
+				f := &in.Flights[fi]
+				f.Scripts[0] = c16Script{Kind: "ans", Delay: int64(5 + 10*r.IntN(200)), Tok: 1 + r.IntN(50)}
+				if r.IntN(4) != 0 {
+					f.CacheFail = 1 + r.IntN(2)
+				}
+				for ci := range f.Callers { // nobody gives up before the answer
+					if r.IntN(3) != 0 {
+						f.Callers[ci].Dl, f.Callers[ci].Cn = 0, 0
+					}
+				}
+			}
+			recs := runOne(in, false)
+			for _, rec := range recs {
+				if ob := rec.Obs.(c16FlightObs); len(cacheSelf) < 5 && ob.FlSeen && !ob.FlOK {
+					cacheSelf = append(cacheSelf, rec)
+				}
+			}
+		}
+		// self-test for the cache observables
+		for i, rec := range cacheSelf {
+			st := rec
+			st.SelfTest, st.SelfOf = true, rec.ID
+			in := rec.Input.(c16Input)
+			if rec.Kind == "policy" {
+				// pretend the lookup failed because the cache refused the write
+				st.Coq = c16RenderPolicy(in, "(Some (7, 5))", 3, 1, 0, true, 0, true, false)
+			} else {
+				ob := rec.Obs.(c16FlightObs)
+				fi := 0
+				for j, f := range in.Flights {
+					if f.Name == ob.Name {
+						fi = j
+					}
+				}
+				switch i % 3 {
+				case 0:
+					ob.FlCached = true // the refused document is in the cache all the same
+				case 1:
+					ob.AfterReq = !ob.AfterReq // the next lookup sends a request although the name is installed
+				default:
+					ob.FlTok++ // the document offered to the cache carries other bytes
+				}
+				st.Coq, _ = c16RenderFlight(in.Flights[fi], ob)
+			}
+			out.Emit(st)
 		}
 		// self-test: one observable altered
 		for i, rec := range selfSrc {
@@ -779,7 +1023,7 @@ func runC16(o Opts) {
 			} else if rec.Kind == "policy" {
 				in := rec.Input.(c16Input)
 				// pretend the refused lookup had sent a request
-				st.Coq = fmt.Sprintf("CPolicy %s %s %d %s %s %d %d %d", coqBool(in.Allow), c16Decl, in.EP, coqBytes([]byte(in.Name)), "(Some (7, 5))", 3, 1, 0)
+				st.Coq = c16RenderPolicy(in, "(Some (7, 5))", 3, 1, 0, false, 0, false, false)
 			} else {
 				in := rec.Input.(c16Input)
 				ob := rec.Obs.(c16FlightObs)
